@@ -32,19 +32,19 @@ VARIABLES prog,      \* the program: set of leaf paths (never changes)
           cur,       \* path of the trial in flight (meaningful while running)
           mode,      \* "idle" (no optimize call active) | "run" | "stopped"
           left,      \* trials the active optimize call may still start
-          failed,    \* the most recent trial of the active call ended FAIL
+          failed,    \* no trial in flight and the most recent trial of the active call ended FAIL
           aborts     \* transient mid-trial failures so far
 vars == <<prog, evals, running, cur, mode, left, failed, aborts>>
 
 Outcomes == {"COMPLETE", "FAIL", "PRUNED"}
 
 \* ------------------------------------------------------------------ programs
-IsPrefix(p, q) == Len(p) <= Len(q) /\ SubSeq(q, 1, Len(p)) = p
+IsPrefix(p, q) == Len(p) <= Len(q) /\ \A i \in 1..Len(p) : p[i] = q[i]
 Step(n, v)     == [n |-> n, v |-> v]
 Ext(p, n, v)   == Append(p, Step(n, v))
 
 UnderIn(P, p)  == {q \in P : IsPrefix(p, q)}
-InnerIn(P, p)  == \E q \in P : IsPrefix(p, q) /\ q # p
+InnerIn(P, p)  == {q \in P : IsPrefix(p, q) /\ q # p} # {}     \* (a set test: no branching per witness in TLC)
 NameIn(P, p)   == (CHOOSE q \in UnderIn(P, p) : Len(q) > Len(p))[Len(p) + 1].n
 CandIn(P, p)   == {q[Len(p) + 1].v : q \in {r \in UnderIn(P, p) : Len(r) > Len(p)}}
 
@@ -62,10 +62,11 @@ NextName(p) == NameIn(prog, p)
 Cand(p)    == CandIn(prog, p)
 
 Unvisited  == {q \in prog : evals[q] = 0}
-AllVisited == Unvisited = {}
+AllVisited == \A q \in prog : evals[q] > 0
 
 \* what an exhaustive sampler may answer at node p
-Admissible(p) == {v \in Cand(p) : Under(Ext(p, NextName(p), v)) \cap Unvisited # {}}
+Admissible(p) == LET n == NextName(p)
+                 IN  {v \in Cand(p) : \E q \in prog : evals[q] = 0 /\ IsPrefix(Ext(p, n, v), q)}
 
 \* ------------------------------------------------------------------ machine
 InitFor(P) ==
@@ -84,8 +85,8 @@ StartTrial ==
   /\ mode = "run" /\ ~running /\ left > 0
   /\ ~AllVisited                                   \* "... and then stops": no trial once all is visited
   /\ running' = TRUE /\ cur' = <<>>
-  /\ left' = left - 1
-  /\ UNCHANGED <<prog, evals, mode, failed, aborts>>
+  /\ left' = left - 1 /\ failed' = FALSE
+  /\ UNCHANGED <<prog, evals, mode, aborts>>
 
 Suggest(n, v) ==
   /\ running /\ Inner(cur)
@@ -97,30 +98,31 @@ Suggest(n, v) ==
 Finish(out) ==
   /\ running /\ IsLeaf(cur) /\ out \in Outcomes
   /\ evals' = [evals EXCEPT ![cur] = @ + 1]
-  /\ running' = FALSE /\ failed' = (out = "FAIL")
-  /\ UNCHANGED <<prog, cur, mode, left, aborts>>
+  /\ running' = FALSE /\ cur' = <<>> /\ failed' = (out = "FAIL")
+  /\ UNCHANGED <<prog, mode, left, aborts>>
 
 Abort(out) ==
   /\ running /\ Inner(cur) /\ out \in {"FAIL", "PRUNED"}
   /\ aborts < MaxAborts
   /\ aborts' = aborts + 1
-  /\ running' = FALSE /\ failed' = (out = "FAIL")
-  /\ UNCHANGED <<prog, evals, cur, mode, left>>
+  /\ running' = FALSE /\ cur' = <<>> /\ failed' = (out = "FAIL")
+  /\ UNCHANGED <<prog, evals, mode, left>>
 
 ReturnSelf ==
   /\ mode = "run" /\ ~running /\ AllVisited
-  /\ mode' = "stopped"
-  /\ UNCHANGED <<prog, evals, running, cur, left, failed, aborts>>
+  /\ mode' = "stopped" /\ left' = 0 /\ failed' = FALSE
+  /\ UNCHANGED <<prog, evals, running, cur, aborts>>
 
 ReturnCap ==
   /\ mode = "run" /\ ~running /\ left = 0 /\ ~AllVisited
-  /\ mode' = "idle"
-  /\ UNCHANGED <<prog, evals, running, cur, left, failed, aborts>>
+  /\ mode' = "idle" /\ left' = 0 /\ failed' = FALSE
+  /\ UNCHANGED <<prog, evals, running, cur, aborts>>
 
 Interrupt ==
   /\ mode = "run" /\ ~running /\ failed
   /\ mode' = IF AllVisited THEN "stopped" ELSE "idle"
-  /\ UNCHANGED <<prog, evals, running, cur, left, failed, aborts>>
+  /\ left' = 0 /\ failed' = FALSE
+  /\ UNCHANGED <<prog, evals, running, cur, aborts>>
 
 Done == mode = "stopped" /\ UNCHANGED vars
 
